@@ -2,8 +2,9 @@ SPECIFICATION Spec
 CONSTANTS
   MaxLen = 6
   MaxDepth = 3
-  Conds = {"T", "F", "V", "N", "U"}
-  Kinds = {"if", "elif", "ifdef", "ifndef", "elifdef", "elifndef", "else", "endif", "text", "def0", "def1", "undef", "warn", "inc"}
+  Conds = {"T", "F", "V", "N", "R"}
+  Kinds = {"if", "elif", "ifdef", "ifndef", "elifdef", "elifndef", "else", "endif", "text", "def0", "def1", "undef", "warn", "err", "inc", "inc2", "push", "pop"}
+  MinDump = 6
 INVARIANT Refines
 INVARIANT ClosedNormal
 INVARIANT AtMostOneGroup
